@@ -274,19 +274,23 @@ def leanchecker(prop):
 LEAN_SHARD_TIMEOUT = int(os.environ.get("VERIF_LEAN_TIMEOUT", "240"))
 
 
-def _lean_driver_one(lines, timeout):
+def _lean_driver_one(lines, timeout, limit=None):
     """one interpreter run over `lines`.  A run that exceeds the time limit is bisected: a single line on
     which the model does not terminate in time is answered with an error object (which every judge treats as
-    a model/implementation disagreement), so a pathological input cannot hang the check."""
+    a model/implementation disagreement), so a pathological input cannot hang the check.  Each level of the
+    bisection gets half of the previous limit (not below 60 s): a healthy shard takes seconds, so the search for
+    the offending line costs ten minutes, not forty."""
+    limit = LEAN_SHARD_TIMEOUT if limit is None else limit
     inp = "\n".join(json.dumps(l, separators=(",", ":")) for l in lines) + "\n"
     main = os.environ.get("VERIF_MAIN", "Main.lean")  # development: a private driver file
     try:
-        r = run(["lake", "env", "lean", "--run", main], cwd=LEAN_DIR, timeout=min(timeout, LEAN_SHARD_TIMEOUT), inp=inp)
+        r = run(["lake", "env", "lean", "--run", main], cwd=LEAN_DIR, timeout=min(timeout, limit), inp=inp)
     except subprocess.TimeoutExpired:
         if len(lines) == 1:
-            return [{"error": f"model evaluation exceeded {LEAN_SHARD_TIMEOUT} s on this input"}]
+            return [{"error": f"model evaluation exceeded {int(limit)} s on this input"}]
         mid = len(lines) // 2
-        return _lean_driver_one(lines[:mid], timeout) + _lean_driver_one(lines[mid:], timeout)
+        sub = max(60, limit / 2)
+        return _lean_driver_one(lines[:mid], timeout, sub) + _lean_driver_one(lines[mid:], timeout, sub)
     outs = [l for l in r.stdout.split("\n") if l.strip()]
     if r.returncode != 0 or len(outs) != len(lines):
         raise Infra(
